@@ -45,6 +45,16 @@ class LimitGatedScheduler {
           unlimited_(res == std::numeric_limits<ssize_t>::max()),
           serial_(res == 1) {}
 
+    // Items can still arrive in the local queue after wait() has discarded the queued items of a
+    // failed pipeline (a stage that was in flight hands its result on).  OnceFunction does not
+    // release its functor on destruction, so whatever is left must be released here.
+    ~Impl() {
+      OnceFunction discard;
+      while (queue_.try_dequeue(discard)) {
+        discard.cleanupNotRun();
+      }
+    }
+
     template <typename F>
     void schedule(F&& fPipe) {
       outstanding_.fetch_add(1, std::memory_order_acq_rel);
